@@ -138,6 +138,61 @@ def run(ctx):
         opdecls = X.gen_operators(rng, spec, allow_prod=rng.random() < 0.3)
         language_histories(ctx, li, spec, opdecls, nhist, [])
     polyconst_family(ctx)
+    validate_history_cases(ctx)
+
+
+def validate_history_cases(ctx):
+    """`Language.validate()` gives the same verdict at any point of any history: a language with an operator whose plain signature holds a
+    wildcard (`size : R(_) ** A`, invalid) and an explicit namespace is validated fresh, after its namespace was used (uri, graph, vocabulary:
+    these close the language) and after a first, failed validation; and likewise a valid language"""
+    from transforge.type import TypeOperator, _
+    from transforge.expr import Operator, DeclarationError
+    from transforge.lang import Language
+    from transforge.graph import TransformationGraph
+
+    def make(valid):
+        A = TypeOperator("A"); B = TypeOperator("B"); R = TypeOperator("R", params=1)
+        size = Operator(type=(lambda: R(_) ** A) if valid else R(_) ** A, name="size")
+        okop = Operator(type=A ** B, name="okop")
+        return Language(scope=dict(A=A, B=B, R=R, size=size, okop=okop), namespace=("ex", "https://example.org/lang#")), A
+
+    def verdict(lang):
+        try:
+            lang.validate()
+            return "ok"
+        except DeclarationError:
+            return "DeclarationError"
+        except Exception as ex:  # noqa
+            return "X:" + type(ex).__name__
+
+    def act(lang, A, what):
+        if what == "uri":
+            lang.uri(A)
+        elif what == "graph":
+            TransformationGraph(lang)
+        elif what == "vocabulary":
+            TransformationGraph(lang, with_canonical_types=True).add_vocabulary()
+        elif what == "validate":
+            verdict(lang)
+        elif what == "parse":
+            try:
+                lang.parse("okop (- : A)")
+            except Exception:  # noqa
+                pass
+    for valid in (False, True):
+        lang, A = make(valid)
+        ref = verdict(lang)
+        for hist in (["uri"], ["graph"], ["vocabulary"], ["validate"], ["parse"], ["parse", "graph", "validate"], ["uri", "parse"]):
+            lang, A = make(valid)
+            for h in hist:
+                act(lang, A, h)
+            got = verdict(lang)
+            ctx.evaluations += 1
+            ctx.count("validate_history_cases")
+            if got != ref:
+                ctx.fail(f"Language.validate() of a language with {'a valid' if valid else 'an invalid (plain, wildcard-holding)'} signature gives {got} after "
+                         f"the history {hist}; on the fresh language {ref}",
+                    {"check": "validate-history-dependence", "steps": hist}, {"what": "validate-history", "valid": valid, "history": hist})
 
 
 def polyconst_family(ctx):
@@ -249,6 +304,13 @@ def shrink(spec, opdecls, history, probe, ninputs, ref):
 def replay(ctx, payload):
     from props.C03 import fix_schema
     inp = payload["input"]
+    if inp.get("what") == "validate-history":
+        c = type("C", (), {"failures": [], "evaluations": 0, "count": lambda self, n, k=1: None,
+            "fail": lambda self, d, f, r: self.failures.append(d)})()
+        validate_history_cases(c)
+        for d in c.failures:
+            print(d)
+        return not c.failures
     spec = G.LangSpec([(n, v, p) for n, v, p in inp["lang"]])
     opdecls = [(n, fix_schema(s)) for n, s in inp["opdecls"]]
     if inp.get("plain"):
